@@ -76,12 +76,13 @@ TraceEndPkg ==
                        \cup FileNameClauses(f, c, p.fname, evs) \cup StampClauses(f, c, Tree, evs) \cup DocClauses(f, c, Tree, evs)
                   ELSE {}
          \* C13 end to end: in a configuration with override blocks, the clauses that read overridable settings (relations,
-         \* umask-derived modes, script slots) are evaluated for the effective settings of THIS format; when they fail and
-         \* would not fail in the same way for the base settings, the package does not state its format's effective settings
+         \* umask-derived modes, script slots) are evaluated for the effective settings of THIS format; a clause that fails
+         \* for them and would hold for the base settings shows a package built from something else than its format's
+         \* effective settings
          ovCase == \E g \in DOMAIN C.ov : C.ov[g].block
          reqOf(cc) == LET mm == PlanFor(cc, Tree, f)[2] IN
                       { x \in PayloadClauses(f, cc, Tree, mm, evs)[1] \cup SlotClauses(f, cc, evs) \cup MetaClauses(f, cc, evs) : ~IsDoc(x) }
-         c13 == IF ovCase /\ built /\ expect /\ reqOf(c) # {} /\ reqOf(c) # reqOf(C)
+         c13 == IF ovCase /\ built /\ expect /\ reqOf(c) # {} /\ (reqOf(c) \ reqOf(C)) # {}
                 THEN {"C13.package_states_effective_settings_of_its_format"} ELSE {}
          all == resultCl \cup pay[1] \cup pay[2] \cup other \cup c13
      IN /\ viol' = AddViol({ <<cid, pkgLine, n>> : n \in { x \in all : ~IsDoc(x) } })
